@@ -16,7 +16,7 @@ Decided:
 import ast
 
 from ..flow import arg_origins, origins
-from ..mir import op_const, try_edges
+from ..mir import op_const, op_local as op_local_of, try_edges
 from ..util import agg_assigns, result_return_kinds, unreachable_without, where
 
 LEVEL = "other"
@@ -72,8 +72,23 @@ def check(ctx):
                 ctx.require(R2, a1.has_leaf("param:3") and not a1.consts, s.where(), "client side = the list offered by the client", [START, "select-client"])
             ret = origins(cb, {"l": 0, "p": []})
             okor = [x for x in ret.calls if x.is_("core::option::Option::ok_or", "core::option::Option::ok_or_else")]
-            ctx.require(R2, bool(okor) and any(x.get("item") == "tacd::openssl_server::ALPN_ERROR" for x in ret.consts), "%s:%s" % (cb.file, cb.line),
-                        "no common protocol -> Err(ALPN_ERROR)", [START, "no-overlap-result"])
+            form_a = bool(okor) and any(x.get("item") == "tacd::openssl_server::ALPN_ERROR" for x in ret.consts)
+            # or spelled out: `match select_next_proto(..) { Some(p) => Ok(p), None => Err(ALPN_ERROR) }`
+            form_b = False
+            for s in sel:
+                te = try_edges(cb, [s.dest["l"]])
+                none_t = [tg for t in te for tg in t["err"]]
+                some_t = [tg for t in te for tg in t["ok"]]
+                rl = set(ret.locals) | {0}
+                errs = [(i, st) for i, st in agg_assigns(cb, "core::result::Result", "Err") if st["lhs"]["l"] in rl]
+                oks = [(i, st) for i, st in agg_assigns(cb, "core::result::Result", "Ok") if st["lhs"]["l"] in rl]
+                if none_t and some_t and errs and oks:
+                    rn = cb.reachable(none_t)
+                    rs = cb.reachable(some_t)
+                    err_ok = all(i in rn and i not in rs and any(x.get("item") == "tacd::openssl_server::ALPN_ERROR" for x in origins(cb, st["rv"]["ops"][0]).consts) for i, st in errs)
+                    ok_ok = all(i in rs and i not in rn for i, st in oks)
+                    form_b = err_ok and ok_ok
+            ctx.require(R2, form_a or form_b, "%s:%s" % (cb.file, cb.line), "no common protocol -> Err(ALPN_ERROR)", [START, "no-overlap-result"])
             ctx.require(R2, any(x.is_("openssl::ssl::select_next_proto") for x in ret.calls), "%s:%s" % (cb.file, cb.line), "the selected protocol is what select_next_proto returned", [START, "selected"])
 
     tls_version_rule(ctx, R2)
@@ -165,7 +180,9 @@ def check(ctx):
     ctx.floor(R5, "X509Extension::new for the acmeIdentifier extension", len(xn), 1)
     for c_ in xn:
         name, val = arg_origins(c_, 2), arg_origins(c_, 3)
-        ctx.require(R5, name.has_leaf("param:4") and val.has_leaf("param:4") and name.via_any("core::str::<impl str>::split") and val.via_any("alloc::vec::Vec::pop"), c_.where(),
+        SPLITS = ("core::str::<impl str>::split", "core::str::<impl str>::split_once", "core::str::<impl str>::splitn")
+        distinct = op_local_of(c_.args[2]) != op_local_of(c_.args[3]) and name.locals != val.locals
+        ctx.require(R5, name.has_leaf("param:4") and val.has_leaf("param:4") and name.via_any(*SPLITS) and val.via_any(*SPLITS) and distinct, c_.where(),
                     "extension name and value are the two sides of the `name=value` split of the acme_ext parameter", [GEN, "extension-source"])
         # order: value popped first (last element), then name
     ext_ap = [c_ for c_ in ap if any(x.is_("openssl::x509::X509Extension::new") for x in arg_origins(c_, 1).calls)]
@@ -175,7 +192,7 @@ def check(ctx):
     for c_ in ie:
         t, f = call_true_false_edges(g, c_)
         for (sb, tg) in f:
-            r = g.reachable([tg], removed_nodes=[x.bb for x in ext_ap])
+            r = g.reachable_flags([tg], removed_nodes=[x.bb for x in ext_ap])     # variant-tag sensitive
             ctx.require(R5, not (set(okb) & r), where(g, sb), "with a non-empty extension text, success implies the extension was appended", [GEN, "extension-skipped"])
     sub = g.calls_to("openssl::x509::X509Builder::set_subject_name")
     iss = g.calls_to("openssl::x509::X509Builder::set_issuer_name")
